@@ -73,3 +73,15 @@ func Run(n int) (int, int32) {
 	}
 	return s, atomic.LoadInt32(&initialised)
 }
+
+// tryTake ends in a select whose clauses all return (a terminating statement).
+func tryTake(c chan int) (int, bool) {
+	select {
+	case v := <-c:
+		return v, true
+	default:
+		return 0, false
+	}
+}
+
+var _ = tryTake
